@@ -73,6 +73,11 @@ def match_finding(v, pid, findings):
 def run_property(pid, tier, seed):
     t0 = time.time()
     mod = importlib.import_module('mc.props.' + pid.lower())
+    rdir = os.path.join(VERIF, 'replays', pid)
+    if os.path.isdir(rdir):                      # replay files of earlier runs are stale
+        for f in os.listdir(rdir):
+            if f.endswith('.json'):
+                os.unlink(os.path.join(rdir, f))
     items = mod.plan(tier)
     n_items = len(items)
     # VERIF_SEED only rotates the order in which work is handed out (DESIGN section 1)
